@@ -165,6 +165,8 @@ def rule_W6(ctx):
 
 def rule_W8(ctx, typer):
     from .cfg import CFG
+    from .purity import Purity
+    purity = Purity(ctx.p, typer)
     n = 0
     for func in ctx.p.all_funcs:
         asserts = [x for x in walk_own(func.node) if isinstance(x, ast.Assert)]
@@ -180,6 +182,10 @@ def rule_W8(ctx, typer):
                 gs = cfg.guards_of(cn)
                 if not any(isinstance(c, ast.Name) and c.id == "ASSERTIONS" and outcome is True for c, outcome, _ in gs):
                     guarded = False
+            t = a.test
+            if isinstance(t, ast.BoolOp) and isinstance(t.op, ast.Or) and isinstance(t.values[0], ast.UnaryOp) \
+                    and isinstance(t.values[0].op, ast.Not) and isinstance(t.values[0].operand, ast.Name) and t.values[0].operand.id == "ASSERTIONS":
+                guarded = True  # `assert not ASSERTIONS or <test>`: the test is evaluated only when assertions are on
             r = ctx.p.resolve_name(func.module, "ASSERTIONS")
             from_config = r is not None and r[0] == "const" and "ANYTREE_ASSERTIONS" in norm(r[1])
             if not guarded or not from_config:
@@ -191,6 +197,9 @@ def rule_W8(ctx, typer):
                 if isinstance(c, ast.Call):
                     res = ft.calls.get(id(c)) if ft is not None else None
                     pure = res is not None and res.kind == "builtin" and res.name in T.PURE_BUILTINS
+                    if not pure and res is not None and res.kind == "func" and purity is not None:
+                        ts = res.target if isinstance(res.target, list) else [res.target]
+                        pure = all(not [e for e in purity.effects(t) if e.kind != "lazyinit"] for t in ts)
                     if not pure:
                         impure = c
                 elif isinstance(c, (ast.NamedExpr, ast.Yield, ast.YieldFrom, ast.Await)):
